@@ -2,14 +2,14 @@ PROP = {
     "id": "C35",
     "coq_targets": ["Properties/C35.vo", "Extract/C35Extract.vo"],
     "properties_file": "Properties/C35.v",
-    "theorems": ["C35_correct", "C35_no_panic", "C35_reachable_minimal_unreachable_marked",
+    "theorems": ["C35_correct", "C35_no_panic", "C35_spt_pure", "C35_correct_sequence", "C35_reachable_minimal_unreachable_marked",
                  "C35_code_as_found_panics_iff_unreachable", "C35_path_check_sound"],
     "allowed_axioms": [],
     "harness": "c35",
     "modelrun": {"name": "c35", "extracted": ["c35_model"], "driver": "ocaml/c35/c35_run.ml"},
-    "tiers": {"quick": {"cases": 20000}, "thorough": {"cases": 300000}},
+    "tiers": {"quick": {"cases": 12000}, "thorough": {"cases": 300000}},
     "search_cases": 60000,
-    "rule": "exhaustive: every digraph on <=3 nodes with weights 0..2 and every source (thorough: weights 0..3, "
+    "rule": "a case = one Topology and a sequence of SPT calls on it (exhaustive graphs: every source in turn and the first again; random: 1-4 calls, sources may repeat), every call judged and compared; exhaustive: every digraph on <=3 nodes with weights 0..2 and every source (thorough: weights 0..3, "
             "3 nodes with self-loops and weights 0..1, all 3^12 digraphs on 4 nodes with weights 0..1); random: 4-24 nodes, "
             "weights 0..3 / 0..49 / multiples of 2^54..2^56, self-loops, duplicate nodes, duplicate edges (last wins); "
             "a case is non-trivial when some node other than the source is reachable and either some node is "
